@@ -1,6 +1,6 @@
 SPECIFICATION MSpec
 CONSTANTS
-  MaxEvents = 6
+  MaxEvents = 7
   MaxMeasures = 2
   Durs = {1, 2}
 INVARIANT CursorInMeasure
